@@ -34,10 +34,11 @@ func cellOf(i int, seed int64, cells int) int {
 func TestProp(t *testing.T) {
 	env := vh.GetEnv()
 	rep := vh.NewReport("C08", "exploration")
-	rep.Rule("three streams against the full NewAuthenticatorMux (Okta provider, scripted TLS IdP that answers positively for every token a case uses): " +
+	rep.Rule("four streams against the full NewAuthenticatorMux (Okta provider, scripted TLS IdP that answers positively for every token a case uses): " +
 		"c08-cred strides over id-placement(10) x secret-placement(11) x method-slot(12: half the endpoint's own method) x endpoint(4), payload valid 3/4 of the time; " +
 		"c08-code strides over code-class slots(21) x sub-variant(8) x credential placement(4) on POST /redeem with right credentials; " +
 		"c08-path strides over path/Host variant(33) x endpoint(4) x credential mode(5) with raw request targets. " +
+		"c08-seq (history) strides over endpoint(4) x scenario(5 slots: same-endpoint x2, other-endpoints, interleaved-two-subjects, unauthorised-first) x pause(11 slots: 0 / 50 ms / 1.1 s): per case a sequential conversation on one stack about SHARED subject values (token, refresh token, code, e-mail+groups): an authorised call that succeeds, then the same subject with missing / partial / wrong / swapped credentials on the same endpoint and on the other endpoints its tokens fit, or interleaved with a never-authorised second subject; IdP calls are counted per step. " +
 		"Concrete tokens, e-mails, near-miss values and mutation positions are random per case. distinct = the abstract dimension tuple, counted only when the server answered")
 	rep.Assume("the fake IdP answers exactly as scripted and logs every call it receives; calls are attributed to cases by per-case unique token keys")
 	rep.Assume("a value is 'presented' when it is in the request as client_id (query or form) / client_secret (form, query) / X-Client-Secret header; the same value under any other name is not")
@@ -73,6 +74,9 @@ func TestProp(t *testing.T) {
 	if only, skip := env.Only("c08-path"); !skip {
 		runPath(rep, env, stacks, env.Pick(660, 5940), only)
 	}
+	if only, skip := env.Only("c08-seq"); !skip {
+		runSeq(rep, env, stacks, env.Pick(440, 6600), only)
+	}
 	rep.Extra("wall_workload_s", time.Since(start).Seconds())
 
 	for _, s := range stacks {
@@ -93,6 +97,16 @@ func TestProp(t *testing.T) {
 		"redeem_genuine_2xx": 20, "redeem_genuine-signin_2xx": 3, "redeem_expired_refused": 20,
 		"redeem_corrupted_refused": 20, "redeem_truncated_refused": 10, "redeem_other-key_refused": 10,
 		"path_plain_ok_2xx": 1, "path_variant_refused_without_credentials": 20,
+		"seq_unauthorised_after_authorised_pause_50ms": 10, "seq_unauthorised_after_authorised_pause_1100ms": 3,
+	}
+	for _, e := range endpoints {
+		floors["seq_authorised_step_2xx_"+e.name] = 10
+		floors["seq_unauthorised_after_authorised_same_subject_"+e.name] = 20
+		floors["seq_unauthorised_after_authorised_other_subject_"+e.name] = 3
+		if e.name != "redeem" {
+			floors["seq_authorised_step_idp_consulted_"+e.name] = 10
+			floors["seq_unauthorised_after_authorised_other_endpoint_"+e.name] = 3
+		}
 	}
 	for k, v := range floors {
 		if env.Replay != "" {
